@@ -86,17 +86,37 @@ def main():
                     m = json.load(open(meta))
                     jobs.append((str(d.relative_to(ROOT)), m.get("caught_by") or m.get("properties") or [m.get("property")]))
     detected = missed = 0
+    rows = []
     with ThreadPoolExecutor(max_workers=a.j) as ex:
         for spec, out in ex.map(lambda j: run_mutant(j[0], j[1], a.tier, a.seed), jobs):
+            caught_by = []
             for p, res in out.items():
                 rc = res[0]
                 ok = rc == 1
                 detected += ok
                 missed += (not ok)
+                if ok:
+                    caught_by.append(p)
+                first = (res[3][0].strip()[2:] if len(res) > 3 and res[3] else "")
+                rows.append((spec, p, "caught" if ok else f"MISSED (rc={rc})", first[:150]))
                 print(f"{'CAUGHT ' if ok else 'MISSED '} {spec} {p} rc={rc} {res[1:3] if len(res) > 2 else res[1:]}")
                 if (a.v or not ok) and len(res) > 3:
                     for l in res[3]:
                         print("      ", l[:220])
+            if a.all and (ROOT / spec / "meta.json").exists():
+                m = json.load(open(ROOT / spec / "meta.json"))
+                m["caught_by"] = caught_by
+                m["checked"] = {"tier": a.tier, "seed": a.seed, "date": time.strftime("%Y-%m-%d")}
+                json.dump(m, open(ROOT / spec / "meta.json", "w"), indent=1)
+    if a.all:
+        lines = ["# Sensitivity results (tools/mutants.py --all, tier %s, seed %d)" % (a.tier, a.seed), "",
+                 "Every stored property-breaking change, applied to a scratch worktree of /repo HEAD, against the quick check of the property it breaks.", "",
+                 "| change | check | outcome | first record |", "|---|---|---|---|"]
+        for spec, p, outc, first in sorted(rows):
+            lines.append(f"| {spec} | {p} | {outc} | {first.replace('|', '/')} |")
+        lines.append("")
+        lines.append(f"caught {detected} / {detected + missed}")
+        (ROOT / "seeded" / "RESULTS.md").write_text("\n".join(lines) + "\n")
     print(f"caught {detected} / {detected + missed}")
     return 0 if missed == 0 else 1
 
